@@ -108,6 +108,8 @@ impl OutputManager {
             "types.d.ts",
             "commands.ts",
             "commands.d.ts",
+            "events.ts",
+            "events.d.ts",
             "schemas.ts",
             "schemas.d.ts",
             "index.ts",
